@@ -3,6 +3,7 @@ Liveness obligations turned into CFG rules (DESIGN.md section 4, C08)."""
 import re
 
 import common
+from mir import agg_direct
 from collections import deque
 
 from common import BLOCKING, GUARD_TY, LOCK_ACQUIRE, pt_deref, user_call_kind
@@ -297,7 +298,9 @@ def r4(R4, cfg, F):
         R4.missing(cfg, 'Answers::get_unique_token')
     else:
         cs = [c for c in b.calls()]
-        ok = len(cs) == 1 and cs[0].callee.name == 'fetch_add' and 'Atomic' in cs[0].callee.best and cs[0].dest['l'] == 0 \
+        # (the counter value may be wrapped in a private newtype before it is returned)
+        ok = len(cs) == 1 and cs[0].callee.name == 'fetch_add' and 'Atomic' in cs[0].callee.best \
+            and (cs[0].dest['l'] == 0 or common.value_built_from(b, {'k': 'copy', 'place': {'l': 0, 'p': [], 'ty': '?'}}) == ['call@bb%d' % cs[0].bb]) \
             and (b.access_path(cs[0].args[0]) or [])[-2:] == ['next_token', '&'] and cs[0].args[1].get('text', '').startswith('1')
         R4.check(ok, cfg, b.path, 'token=fetch_add(1)', 'tokens must be unique: get_unique_token must be a fetch_add(1) on next_token', b.loc())
     rl = F.body('hot_reloading::HotReloader::reload')
@@ -307,16 +310,68 @@ def r4(R4, cfg, F):
     ok, why_rl = common.reload_waits_for_own_token(rl)
     R4.check(ok, cfg, rl.path, 'wait-only-after-send-ok-on-own-token', 'reload must block only when its message was sent, waiting for the very token it put in the message: ' + why_rl, rl.loc())
     # the waiter waits for its own token; the notifier waits for an empty slot
-    for fn, want in (('wait_for_answer', 'ne'), ('notify', 'is_some')):
-        cb = F.body('hot_reloading::Answers::%s::{closure#0}' % fn)
-        if not cb:
+    for fn, want in (('wait_for_answer', 'own-token'), ('notify', 'empty-slot')):
+        hb = F.body('hot_reloading::Answers::%s' % fn)
+        if not hb:
+            R4.missing(cfg, 'Answers::%s' % fn)
+            continue
+        ww = [c for c in hb.calls() if c.callee and c.callee.best == 'utils::private::Condvar::wait_while']
+        kind, cb = None, None
+        if len(ww) == 1 and len(ww[0].args) >= 3:
+            lit = agg_direct(hb, ww[0].args[2])
+            cb = F.body(lit['rv'].get('closure')) if lit is not None and lit['rv'].get('closure') else None
+            slot = 'arg2'
+            if cb is None and ww[0].args[2].get('k') == 'const' and (ww[0].args[2].get('fn') or {}).get('def'):
+                # a named fn used as the predicate: its first parameter is the slot
+                cb, slot = F.body(ww[0].args[2]['fn']['def']) or F.dropped(ww[0].args[2]['fn']['def']), 'arg1'
+            kind = wait_predicate(hb, cb, lit, slot) if cb else None
+        if cb is None:
             R4.missing(cfg, 'Answers::%s predicate' % fn)
             continue
-        cs = [c.callee.name for c in cb.calls() if c.callee]
-        if want == 'is_some':
-            # (normal form) the predicate is true exactly when the slot (its argument) is Some
-            cs = ['is_some'] if common.returns_is_variant(cb, 1) == ['arg2'] and not cs else cs + ['?']
-        R4.check(cs == [want], cfg, cb.path, 'predicate=' + want, 'wait predicate of %s must be `%s`' % (fn, {'ne': '*t != Some(token)', 'is_some': 't.is_some()'}[want]), cb.loc())
+        R4.check(kind == want, cfg, cb.path, 'predicate=' + want, 'the predicate %s waits on must be %s; it is %s'
+                 % (fn, {'own-token': '`*slot != Some(token)` with the token it was given', 'empty-slot': '`slot.is_some()` (wait until every answer was consumed)'}[want], kind), cb.loc())
+
+
+def wait_predicate(hb, cb, lit, slot='arg2'):
+    """what a wait_while predicate of Answers keeps waiting for: 'empty-slot' (true while the slot is Some), 'own-token' (true
+    while the slot differs from Some(the host's token parameter)), or a description of anything else"""
+    cs = [c for c in cb.calls() if c.callee]
+    if not cs:
+        return 'empty-slot' if common.returns_is_variant(cb, 1) == [slot] else 'a test of something else than the slot'
+    if len(cs) != 1 or cs[0].callee.name != 'ne' or cs[0].callee.trait != 'std::cmp::PartialEq' or cs[0].dest['l'] != 0:
+        return 'calls %s' % [c.callee.name for c in cs]
+
+    def operand(op):
+        # 'slot' | ('some', path-of-payload in the host) | ('none',) | None
+        dp = common.deep_path(cb, op, at=cs[0].bb)
+        sp = common.strip_refs(dp)
+        if sp == [slot]:
+            return 'slot'
+        ag = None
+        m = re.match(r'agg@bb(\d+)\.(\d+)$', sp[0]) if sp and len(sp) == 1 else None
+        body = cb
+        if m:
+            ag = cb.blocks[int(m.group(1))]['stmts'][int(m.group(2))]
+        elif sp[:1] == ['arg1']:
+            hp = common.strip_refs(common.through_closure(hb, cb, op) or [])
+            m = re.match(r'agg@bb(\d+)\.(\d+)$', hp[0]) if hp and len(hp) == 1 else None
+            if m:
+                ag, body = hb.blocks[int(m.group(1))]['stmts'][int(m.group(2))], hb
+        if ag is None or ag['rv']['k'] != 'aggregate':
+            return None
+        if ag['rv'].get('variant_name') == 'None':
+            return ('none',)
+        if ag['rv'].get('variant_name') == 'Some' and len(ag['rv']['ops']) == 1:
+            pp = common.through_closure(hb, cb, ag['rv']['ops'][0]) if body is cb else common.deep_path(hb, ag['rv']['ops'][0])
+            return ('some', common.strip_refs(pp or []))
+        return None
+    x, y = operand(cs[0].args[0]), operand(cs[0].args[1])
+    other = y if x == 'slot' else (x if y == 'slot' else None)
+    if other == ('none',):
+        return 'empty-slot'
+    if other and other[0] == 'some':
+        return 'own-token' if other[1] == ['arg2'] else 'a comparison with Some(%s), which is not the token parameter' % other[1]
+    return 'a comparison of %s with %s' % (x, y)
 
 
 BOUNDED_CHANNEL = re.compile(r'^crossbeam_channel::(bounded|Sender::<T>::(send_timeout|send_deadline))|^std::sync::mpsc::sync_channel')
